@@ -1,0 +1,47 @@
+//go:build verif
+
+package interp
+
+import "unsafe"
+
+// Synchronisation points of the arithmetic lexer/parser pair.
+const (
+	hkLexBefore = iota
+	hkLexAfter
+	hkRunStart
+	hkRunExitBegin
+	hkRunExitEnd
+	hkEmitBefore
+	hkEmitAfter
+	hkEmitCancel
+	hkSpawn
+	hkError
+	hkCancelClosed
+	hkEvalExit
+)
+
+// Exported names of the points, for the verification harness.
+const (
+	HkLexBefore    = hkLexBefore
+	HkLexAfter     = hkLexAfter
+	HkRunStart     = hkRunStart
+	HkRunExitBegin = hkRunExitBegin
+	HkRunExitEnd   = hkRunExitEnd
+	HkEmitBefore   = hkEmitBefore
+	HkEmitAfter    = hkEmitAfter
+	HkEmitCancel   = hkEmitCancel
+	HkSpawn        = hkSpawn
+	HkError        = hkError
+	HkCancelClosed = hkCancelClosed
+	HkEvalExit     = hkEvalExit
+)
+
+// VerifHook, when non-nil, is called at every synchronisation point with an
+// identifier of the lexer concerned. It must be set before the first Eval.
+var VerifHook func(id uintptr, point int)
+
+func verifHook(l *lexer, point int) {
+	if h := VerifHook; h != nil {
+		h(uintptr(unsafe.Pointer(l)), point)
+	}
+}
